@@ -46,7 +46,7 @@ NE = st("NE", [sc("schar"), IN, sc("schar")])
 NS = st("NS", [IN, sc("int")])
 DN = st("DN", [sc("schar"), NS])
 AR = st("AR", [arr(sc("int"), 3), sc("double")])
-A2 = st("A2", [sc("schar"), arr(sc("short"), 2, 2)])
+A2 = st("A2", [sc("schar"), arr(sc("short"), 2, 3)])
 CS = st("CS", [sc("double"), sc("double")])
 SA = st("SA", [arr(sc("char"), 4), sc("int")])
 FC = st("FC", [sc("cfloat"), sc("schar")])
